@@ -45,6 +45,20 @@ def kinds():
             evs += ["rx 0 " + nodegen.ccr(n(), n(), "peer1.x"), f"ans 0 {i} -"]
         return evs + ["eof 0", "tick"]
 
+    def inbound_req_no_origin(N):
+        # requests without Origin-Host (answered 5005 by the node itself), and with an empty one (delivered and answered)
+        evs = ["start fail", "acc", "rx 0 " + nodegen.cer("peer1.x", "4", n(), n())]
+        for i in range(N):
+            evs += ["rx 0 " + nodegen.ccr(n(), n(), "peer1.x", drop=("oh",)), "rx 0 " + nodegen.ccr(n(), n(), ""), f"ans 0 {i} 2001"]
+        return evs + ["eof 0", "tick"]
+
+    def cer_no_origin(N):
+        # connections whose first message is a CER without Origin-Host (5005), then nothing more
+        evs = ["start fail"]
+        for i in range(N):
+            evs += ["acc", f"rx {i} " + nodegen.cer("", "4", n(), n()), f"eof {i}", "tick"]
+        return evs + ["tick"]
+
     def hard_write_error(N):
         # a connection whose pending answer hits a hard socket error
         evs = ["start fail"]
@@ -245,7 +259,8 @@ def kinds():
             evs += ["dial ok", "adv 2", f"rx {i + 1} " + nodegen.cea(2001, "peer2.x", n(), n()), f"eof {i + 1}"]
         return evs + ["tick"]
 
-    return {"inbound_req": inbound_req, "inbound_req_norc": inbound_req_norc, "hard_write_error": hard_write_error,
+    return {"inbound_req": inbound_req, "inbound_req_norc": inbound_req_norc, "inbound_req_no_origin": inbound_req_no_origin,
+            "cer_no_origin": cer_no_origin, "hard_write_error": hard_write_error,
             "rejected_req": rejected_req, "dup_reject": dup_reject, "dwr_in": dwr_in, "dwr_in_sparse": dwr_in_sparse, "dwr_out": dwr_out,
             "outbound_req": outbound_req, "outbound_req_timeout": outbound_req_timeout, "conn_ok": conn_ok, "inbound_req_raise": inbound_req_raise, "thread_req": thread_req,
             "thread_req_raise": thread_req_raise, "conn_req_answered": conn_req_answered, "conn_node_closes": conn_node_closes, "conn_unknown": conn_unknown,
